@@ -84,7 +84,9 @@ func Builders(thorough bool) []Builder {
 		all32[i] = i
 	}
 	// list lengths: small ones, the powers of two and their neighbours, the maximum; thorough: every length
-	counts := ints(thorough, []int{0, 1, 2, 3, 7, 8, 9, 15, 16, 17, 31}, all32)
+	_ = all32
+	thCounts := []int{0, 1, 2, 3, 4, 5, 6, 7, 8, 9, 10, 11, 12, 15, 16, 17, 23, 24, 30, 31}
+	counts := ints(thorough, []int{0, 1, 2, 3, 7, 8, 9, 15, 16, 17, 31}, thCounts)
 	// SR
 	for _, n := range counts {
 		for _, e := range ints(thorough, []int{0, 4, 8, 16, 256}, []int{0, 4, 8, 12, 16, 32, 64, 128, 256, 1024}) {
@@ -125,7 +127,7 @@ func Builders(thorough bool) []Builder {
 			return &rtcp.SourceDescription{Chunks: []rtcp.SourceDescriptionChunk{{Source: t.u32(), Items: []rtcp.SourceDescriptionItem{{Type: rtcp.SDESCNAME, Text: t.text(l)}}}}}
 		})
 	}
-	for _, nc := range ints(thorough, []int{0, 1, 2, 3, 7, 8, 15, 16, 17, 31}, all32) {
+	for _, nc := range ints(thorough, []int{0, 1, 2, 3, 7, 8, 15, 16, 17, 31}, thCounts) {
 		for _, ni := range ints(thorough, []int{0, 1, 2, 3}, []int{0, 1, 2, 3, 4}) {
 			for rot := 0; rot < 4; rot++ {
 				if nc == 0 && (ni > 0 || rot > 0) || ni == 0 && rot > 0 {
@@ -471,7 +473,12 @@ func DomainOf(b Builder, thorough bool, mine func() bool, yield func(V) bool) bo
 		return true
 	}
 	leaves := Leaves(b.Make())
-	// large shapes: deviate the first, middle and last element's fields only
+	if len(leaves) > 40 {
+		for i := range leaves {
+			leaves[i].big = true
+		}
+	}
+	// large shapes: deviate the first two, a middle and the last element's fields only (at every nesting level)
 	idx := leafSubset(leaves)
 	for _, i := range idx {
 		if !mine() {
@@ -486,7 +493,7 @@ func DomainOf(b Builder, thorough bool, mine func() bool, yield func(V) bool) bo
 			}
 		}
 	}
-	if thorough && len(leaves) <= 24 {
+	if thorough && len(leaves) <= 16 {
 		red := []uint64{0, 1}
 		for i := 0; i < len(leaves); i++ {
 			for j := i + 1; j < len(leaves); j++ {
@@ -532,23 +539,49 @@ func leafSubset(ls []Leaf) []int {
 		}
 		return out
 	}
+	// maximal index at every list position, keyed by the path prefix up to that bracket
 	maxIdx := map[string]int{}
 	for _, l := range ls {
-		if pre, i, ok := firstIndex(l.Path); ok && i > maxIdx[pre] {
-			maxIdx[pre] = i
+		for _, pi := range allIndices(l.Path) {
+			if pi.i > maxIdx[pi.prefix] {
+				maxIdx[pi.prefix] = pi.i
+			}
 		}
 	}
 	var out []int
 	for k, l := range ls {
-		pre, i, ok := firstIndex(l.Path)
-		if !ok {
+		keep := true
+		for _, pi := range allIndices(l.Path) {
+			m := maxIdx[pi.prefix]
+			if !(pi.i <= 1 || pi.i == m/2 || pi.i == m) {
+				keep = false
+				break
+			}
+		}
+		if keep {
 			out = append(out, k)
+		}
+	}
+	return out
+}
+
+type pathIndex struct {
+	prefix string
+	i      int
+}
+
+// allIndices lists every [i] of a path with the prefix leading to it.
+func allIndices(path string) []pathIndex {
+	var out []pathIndex
+	for o := 0; o < len(path); o++ {
+		if path[o] != '[' {
 			continue
 		}
-		m := maxIdx[pre]
-		if i <= 1 || i == m/2 || i == m {
-			out = append(out, k)
-		}
+		c := strings.IndexByte(path[o:], ']')
+		n := 0
+		fmt.Sscanf(path[o+1:o+c], "%d", &n)
+		out = append(out, pathIndex{prefix: path[:o], i: n})
+		o += c
 	}
 	return out
 }
